@@ -774,6 +774,8 @@ func (r *multiCIDRRangeAllocator) updateCIDRsAllocation(logger klog.Logger, data
 			}
 			if match {
 				logger.V(4).Info("Node already has allocated CIDR. It matches the proposed one.", "node", klog.KObj(node), "CIDRs", data.allocatedCIDRs)
+				// The CIDRs stay occupied for this node: record which ClusterCIDR they came from.
+				data.clusterCIDR.AssociatedNodes[node.Name] = true
 				return nil
 			}
 		}
